@@ -33,9 +33,13 @@ def main(case):
         import traceback
         traceback.print_exc()
         print(f"  replay raised {type(e).__name__}: {e}  (not counted as a reproduction)")
-        return 4
+        return 4 if case['label'] != '*' else 0
     print(f"  status: {status}; failed assertions: {failures}")
+    print("FAILED-LABELS: " + "|".join(sorted({lab for lab, _ in failures})))
     want = case['label']
+    if want == '*' and failures:
+        print("  concrete fallback run: assertion(s) failed on the real library")
+        return 1
     if any(lab == want for lab, _ in failures):
         print("  REPRODUCED on the real library")
         return 1
